@@ -370,6 +370,7 @@ func (self *linkedPairs) ToMap(con map[string]Node) {
 			// unset pair
 			continue
 		}
+		n.Value.settle()
 		con[n.Key] = n.Value
 	}
 }
